@@ -211,7 +211,7 @@ class World:
         """file name carrying the stamp `us` (names of files seen so far; otherwise synthesised in UTC)"""
         if us in self.names:
             return self.names[us]
-        dt = real_datetime.utcfromtimestamp(us / 1_000_000)
+        dt = real_datetime.fromtimestamp(us / 1_000_000, RL.timezone.utc)
         return '%016d_%04d-%02d-%02d_%02d-%02d-%02d+0000%s' % (us, dt.year, dt.month, dt.day, dt.hour, dt.minute,
                                                                  dt.second, RollLog.MODE_EXTS[MODES.index(self.mode)])
     def real_pos(self, cp):
@@ -998,7 +998,7 @@ def main():
         if name == 'six-writes-one-timestamp':
             run.samples.append(dict(family='corner', name=name, ops=case['ops'][:8], violations=[v[0] for v in orc.viol]))
     ncorner = len(lits)
-    for i in range(run.n(420, 12000)):
+    for i in range(run.n(800, 9000)):
         hdr = gen_header(rng)
         case, orc = one('random', hdr, None)
         run.count('regime:' + hdr['regime'])
